@@ -15,14 +15,16 @@ namespace Rotonda.BmpIo
 
 /-! ## Clause 1: never panics -/
 
-/-- The clause at full strength for a variant of the code: one `bmp_read` never panics. -/
+/-- The clause at full strength for a variant of the code: whatever the reader script, one
+    `bmp_read` never panics — given a parser (`routecore`, outside the model) that does not panic
+    itself. That assumption is the explicit hypothesis `∀ bs, valid bs ≠ .crash`. -/
 def C06_no_panic_full (v : Variant) : Prop :=
-  ∀ (valid : List Nat → Bool) (s : Src), (readFrame v valid s).1 ≠ .panic
+  ∀ (valid : List Nat → Verdict), (∀ bs, valid bs ≠ .crash) → ∀ (s : Src), (readFrame v valid s).1.isPanic = false
 
 /-- Holds for every variant whose length guard covers the slice start (5): in particular the
     proposed repair, and the current source as soon as the extractor sees such a guard. -/
 theorem C06_no_panic_guarded (v : Variant) (hv : sliceStart ≤ v.minLen) : C06_no_panic_full v :=
-  fun valid s => readFrame_no_panic v hv valid s
+  fun valid hp s => readFrame_no_panic v hv valid hp s
 
 theorem C06_no_panic_repaired : C06_no_panic_full repaired :=
   C06_no_panic_guarded repaired (by decide)
@@ -37,31 +39,32 @@ theorem C06_no_panic_source (h : sliceStart ≤ srcMinLen) : C06_no_panic_full s
     length 0) make `resize(0)` shrink the buffer and `&mut msg_buf[5..]` panic. -/
 theorem C06_no_panic_counterexample : ¬ C06_no_panic_full asWritten := by
   intro h
-  exact h (fun _ => true) [.byte 3, .byte 0, .byte 0, .byte 0, .byte 0] (by decide)
+  exact absurd (h (fun _ => .accept) (by intro bs; decide) [.byte 3, .byte 0, .byte 0, .byte 0, .byte 0]) (by decide)
 
-/-- What does hold as written, with the excluded inputs named exactly: `bmp_read` panics **iff**
-    all five header bytes arrived and the declared length is below 5. -/
-theorem C06_no_panic_partial (valid : List Nat → Bool) (s : Src) :
-    (readFrame asWritten valid s).1 = .panic ↔
+/-- What does hold as written, with the excluded inputs named exactly: `bmp_read` panics at the
+    slice **iff** all five header bytes arrived and the declared length is below 5. -/
+theorem C06_no_panic_partial (valid : List Nat → Verdict) (s : Src) :
+    (readFrame asWritten valid s).1 = .panic .slice ↔
       ∃ hdr s1, readExact hdrSize s [] = (.ok hdr, s1) ∧ declaredLen hdr < sliceStart :=
   readFrame_asWritten_panic_iff valid s
 
 /-- Session level: with the guard, no script makes the read loop record a panic or unwind. -/
 theorem C06_session_no_panic {σ Out : Type} (v : Variant) (hv : sliceStart ≤ v.minLen)
-    (h : Handler σ Out) (valid : Nat → List Nat → Bool) (s : Src) (st : σ) :
+    (h : Handler σ Out) (valid : Nat → List Nat → Verdict) (hp : ∀ i bs, valid i bs ≠ .crash)
+    (s : Src) (st : σ) :
     (runLoop v h valid s st).evs.any Ev.isPanic = false ∧ (runLoop v h valid s st).fin ≠ .panicked :=
-  loop_no_panic v hv h valid _ s st 0
+  loop_no_panic v hv h valid hp _ s st 0
 
 /-- …and as written a session does unwind on the witness (nothing after the loop runs: C07). -/
 theorem C06_session_panic_counterexample :
-    (runLoop asWritten trivialHandler (fun _ _ => true)
+    (runLoop asWritten trivialHandler (fun _ _ => .accept)
       [.byte 3, .byte 0, .byte 0, .byte 0, .byte 0] ()).fin = .panicked := by decide
 
 /-! ## Clause 2: never stops making progress -/
 
 /-- Every `bmp_read` on a non-empty script consumes at least one scripted item, and on the empty
     script (peer closed) it returns `UnexpectedEof`. -/
-theorem C06_frame_progress (v : Variant) (valid : List Nat → Bool) (s : Src) :
+theorem C06_frame_progress (v : Variant) (valid : List Nat → Verdict) (s : Src) :
     (s ≠ [] → (readFrame v valid s).2.length < s.length) ∧
     (s = [] → readFrame v valid s = (.ioErr .unexpectedEof, [])) :=
   ⟨readFrame_progress v valid s, fun h => h ▸ readFrame_nil v valid⟩
@@ -72,19 +75,19 @@ theorem C06_frame_progress (v : Variant) (valid : List Nat → Bool) (s : Src) :
     The extracted `is_fatal` table enters only through `isFatal .unexpectedEof = true`; if the
     source ever makes end-of-input non-fatal this obligation breaks (and the real loop would spin). -/
 theorem C06_progress {σ Out : Type} (v : Variant) (h : Handler σ Out)
-    (valid : Nat → List Nat → Bool) (s : Src) (st : σ) :
+    (valid : Nat → List Nat → Verdict) (s : Src) (st : σ) :
     (runLoop v h valid s st).fin ≠ .fuel :=
   loop_fuel v h valid (by decide) _ s st 0 (Nat.lt_succ_self _)
 
 /-- More fuel changes nothing: the bound `length + 1` is not an artefact of the chosen fuel. -/
 theorem C06_progress_any_fuel {σ Out : Type} (v : Variant) (h : Handler σ Out)
-    (valid : Nat → List Nat → Bool) (s : Src) (st : σ) (fuel : Nat) (hf : s.length < fuel) :
+    (valid : Nat → List Nat → Verdict) (s : Src) (st : σ) (fuel : Nat) (hf : s.length < fuel) :
     (loop v h valid fuel s st 0).fin ≠ .fuel :=
   loop_fuel v h valid (by decide) fuel s st 0 hf
 
 /-- The loop never reads beyond what was scripted. -/
 theorem C06_rest_le {σ Out : Type} (v : Variant) (h : Handler σ Out)
-    (valid : Nat → List Nat → Bool) (s : Src) (st : σ) :
+    (valid : Nat → List Nat → Verdict) (s : Src) (st : σ) :
     (runLoop v h valid s st).rest.length ≤ s.length :=
   loop_rest_le v h valid _ s st 0
 
@@ -93,18 +96,19 @@ theorem C06_rest_le {σ Out : Type} (v : Variant) (h : Handler σ Out)
 /-- A complete frame (declared length ≥ 5 and ≥ the guard, no fault inside) is consumed exactly,
     whatever the parser says: a frame rejected by the parser costs exactly its own bytes, the next
     `bmp_read` starts at the next frame boundary. -/
-theorem C06_framing_in_sync (v : Variant) (valid : List Nat → Bool) (hdr body : List Nat) (rest : Src)
+theorem C06_framing_in_sync (v : Variant) (valid : List Nat → Verdict) (hdr body : List Nat) (rest : Src)
     (hh : hdr.length = hdrSize) (hlen : declaredLen hdr = sliceStart + body.length)
     (hmin : v.minLen ≤ declaredLen hdr) :
     readFrame v valid ((hdr ++ body).map Item.byte ++ rest) =
-      (if valid (hdr ++ body) then .frame (hdr ++ body) else .parseErr, rest) :=
+      (match valid (hdr ++ body) with
+        | .accept => .frame (hdr ++ body) | .reject => .parseErr | .crash => .panic .parser, rest) :=
   readFrame_exact v valid hdr body rest hh hlen hmin
 
 /-- A frame the parser rejects changes no session state: the loop either ends this session
     (if the extracted table calls the mapped kind fatal) or continues on the remaining script with
     the *same* handler state. -/
 theorem C06_contained {σ Out : Type} (v : Variant) (h : Handler σ Out)
-    (valid : Nat → List Nat → Bool) (fuel : Nat) (s s' : Src) (st : σ) (i : Nat)
+    (valid : Nat → List Nat → Verdict) (fuel : Nat) (s s' : Src) (st : σ) (i : Nat)
     (hrf : readFrame v (valid i) s = (.parseErr, s')) :
     let r := loop v h valid (fuel + 1) s st i
     (isFatal parseErrKind = true → r.evs.length = 1 ∧ r.st = st ∧ r.fin = .fatal parseErrKind) ∧
@@ -134,15 +138,19 @@ theorem C06_contained {σ Out : Type} (v : Variant) (h : Handler σ Out)
     are satisfiable, and the loop really processes it. -/
 example :
     let s : Src := [.byte 3, .byte 0, .byte 0, .byte 0, .byte 6, .byte 4, .fault .interrupted, .byte 3]
-    (runLoop repaired trivialHandler (fun _ _ => true) s ()).fin = .fatal .unexpectedEof ∧
-    countMsgs (runLoop repaired trivialHandler (fun _ _ => true) s ()).evs = 1 ∧
-    countIoErrs (runLoop repaired trivialHandler (fun _ _ => true) s ()).evs = 2 := by decide
+    (runLoop repaired trivialHandler (fun _ _ => .accept) s ()).fin = .fatal .unexpectedEof ∧
+    countMsgs (runLoop repaired trivialHandler (fun _ _ => .accept) s ()).evs = 1 ∧
+    countIoErrs (runLoop repaired trivialHandler (fun _ _ => .accept) s ()).evs = 2 := by decide
 
 /-- The guard of `C06_no_panic_partial` excludes something real (the witness) and admits
     something real (declared length 5: accepted by the framing, left to the parser). -/
-example : (readFrame asWritten (fun _ => false) [.byte 3, .byte 0, .byte 0, .byte 0, .byte 5]).1 = .parseErr := by decide
-example : (readFrame asWritten (fun _ => false) [.byte 3, .byte 0, .byte 0, .byte 0, .byte 4]).1 = .panic := by decide
-example : (readFrame repaired (fun _ => false) [.byte 3, .byte 0, .byte 0, .byte 0, .byte 4]).1 = .ioErr .invalidData := by decide
+example : (readFrame asWritten (fun _ => .reject) [.byte 3, .byte 0, .byte 0, .byte 0, .byte 5]).1 = .parseErr := by decide
+example : (readFrame asWritten (fun _ => .reject) [.byte 3, .byte 0, .byte 0, .byte 0, .byte 4]).1 = .panic .slice := by decide
+example : (readFrame repaired (fun _ => .reject) [.byte 3, .byte 0, .byte 0, .byte 0, .byte 4]).1 = .ioErr .invalidData := by decide
+/-- The parser hypothesis of the no-panic theorems is not idle: a parser that panics makes the
+    (repaired) framing panic too — which is what the real routecore does in an overflow-checked
+    build for one malformed Peer Up (see notes/C06.md). -/
+example : (readFrame repaired (fun _ => .crash) [.byte 3, .byte 0, .byte 0, .byte 0, .byte 6, .byte 3]).1 = .panic .parser := by decide
 /-- `C06_framing_in_sync`'s hypotheses are satisfiable. -/
 example : [3, 0, 0, 0, 7].length = hdrSize ∧ declaredLen [3, 0, 0, 0, 7] = sliceStart + [4, 9].length ∧
     repaired.minLen ≤ declaredLen [3, 0, 0, 0, 7] := by decide
